@@ -274,6 +274,19 @@ class DynamicBayesianNetwork(DAG):
                 f"Loops are not allowed. Adding the edge from ({str(start)} --> {str(end)}) forms a loop."
             )
 
+        if start[1] == end[1]:
+            # the mirror edge in the other slice must not close a cycle either
+            m_start = DynamicNode(start[0], 1 - start[1])
+            m_end = DynamicNode(end[0], 1 - end[1])
+            if (
+                m_start in super(DynamicBayesianNetwork, self).nodes()
+                and m_end in super(DynamicBayesianNetwork, self).nodes()
+                and nx.has_path(self, m_end, m_start)
+            ):
+                raise ValueError(
+                    f"Loops are not allowed. Adding the edge from ({str(m_start)} --> {str(m_end)}) forms a loop."
+                )
+
         super(DynamicBayesianNetwork, self).add_edge(start, end, **kwargs)
 
         if start[1] == end[1]:
